@@ -1695,6 +1695,8 @@ def prepend_package(builderT:Type[ISystemBuilder], package:str) -> Type[ISystemB
                 prependedpackage = system.Package(
                     system, m, prependedpackage)
                 system.addObject(prependedpackage)
+                # There is no source to analyse: importing from the package must not try to.
+                prependedpackage.state = ProcessingState.PROCESSED
         
         def addModule(self, path: Path, parent_name: Optional[str] = None, ) -> None:
             if parent_name is None:
